@@ -3,8 +3,6 @@ package c01
 
 import (
 	"fmt"
-	"math"
-	"reflect"
 
 	"go.pennock.tech/tabular"
 	"go.pennock.tech/tabular/csv"
@@ -50,35 +48,6 @@ func applyMut(l *gen.Live, it gen.Item, m Mut) {
 	}
 }
 
-// sameItem: the cell hands back the original item unchanged.
-func sameItem(orig, got interface{}) bool {
-	if orig == nil || got == nil {
-		return orig == nil && got == nil
-	}
-	if reflect.TypeOf(orig) != reflect.TypeOf(got) {
-		return false
-	}
-	vo, vg := reflect.ValueOf(orig), reflect.ValueOf(got)
-	switch vo.Kind() {
-	case reflect.Ptr, reflect.Chan, reflect.Map, reflect.UnsafePointer:
-		return vo.Pointer() == vg.Pointer()
-	case reflect.Slice:
-		return vo.Pointer() == vg.Pointer() && vo.Len() == vg.Len()
-	case reflect.Float64:
-		if math.IsNaN(vo.Float()) {
-			return math.IsNaN(vg.Float())
-		}
-	}
-	if co, ok := orig.(tabular.Cell); ok {
-		cg := got.(tabular.Cell)
-		return co.String() == cg.String() && sameItem(co.Item(), cg.Item())
-	}
-	if vo.Type().Comparable() {
-		return orig == got
-	}
-	return reflect.DeepEqual(orig, got)
-}
-
 func observe(where string, c *tabular.Cell, want string, orig interface{}) *ev.Violation {
 	if got := c.String(); got != want {
 		return ev.V("%s: String()=%q, documented text form is %q", where, got, want)
@@ -89,7 +58,7 @@ func observe(where string, c *tabular.Cell, want string, orig interface{}) *ev.V
 	if got := c.Empty(); got != (want == "") {
 		return ev.V("%s: Empty()=%v but text is %q", where, got, want)
 	}
-	if !sameItem(orig, c.Item()) {
+	if !gen.SameItem(orig, c.Item()) {
 		return ev.V("%s: Item() is %#v, not the original item %#v", where, c.Item(), orig)
 	}
 	return nil
